@@ -26,7 +26,11 @@ def real_rsls(q2s=(4.0, 30.0, 900.0)):
                         if k.has_order(o):
                             rsl = c[o]()
                             if rsl is not None:
-                                yield kind, fam, type(c).__name__, o, float(par), rsl
+                                if o == 1 and type(c).__name__ in ("AsyLLIntrinsic", "AsyNLLIntrinsicMatching"):
+                                    # inherited from asy/partonic_channel.py: parameters (L, LO delta coefficient)
+                                    yield "partonic_channel", "asybase", "PartonicChannel" + type(c).__name__, o, [float(c.L), float(c.lo_local())], rsl
+                                else:
+                                    yield kind, fam, type(c).__name__, o, [float(par)], rsl
 
 
 def run_inst_translation(chk):
@@ -34,7 +38,7 @@ def run_inst_translation(chk):
     meth = {0: "LO", 1: "NLO"}
     bad, n, seen = [], 0, set()
     for kind, fam, cname, o, par, rsl in real_rsls():
-        key = (fam, kind.lower() + "_cc", cname, meth[o])
+        key = ("asy", "partonic_channel", cname, meth[o]) if fam == "asybase" else (fam, kind.lower() + "_cc", cname, meth[o])
         if key not in ks:
             continue
         res = ks[key]
@@ -51,7 +55,7 @@ def run_inst_translation(chk):
             for _ in range(6):
                 z = chk.rng.uniform(0.02, 0.98)
                 n += 1
-                got = float(f(z, rsl.args[part])); exp = exprnum.ev(e, z, [par])
+                got = float(f(z, rsl.args[part])); exp = exprnum.ev(e, z, par)
                 if abs(got - exp) > 1e-9 * max(1.0, abs(got)):
                     bad.append(dict(kernel=key, part=part, z=z, param=par, code=got, translated=exp)); break
     missing = [k for k in ks if k not in seen and not isinstance(ks[k], tuple)]
